@@ -78,14 +78,11 @@ class StmtIndex:
         return out
 
 
-_stmt_index_cache: Dict[Tuple[int, str], StmtIndex] = {}
-
-
 def stmt_index(ctx: Ctx, f: Func) -> StmtIndex:
-    k = (id(ctx), f.site)
-    if k not in _stmt_index_cache:
-        _stmt_index_cache[k] = StmtIndex(ctx, f)
-    return _stmt_index_cache[k]
+    cache = ctx.__dict__.setdefault("_stmt_index_cache", {})
+    if f.site not in cache:
+        cache[f.site] = StmtIndex(ctx, f)
+    return cache[f.site]
 
 
 # ------------------------------------------------------------------ refusals
@@ -477,15 +474,21 @@ def resolve_expr(ctx: Ctx, f: Func, at: ast.AST, e: ast.AST, depth: int = 4, kee
 
     params = set(f.param_names()) | (set(f.top.param_names()) if f.parent is not None else set()) | set(keep)
 
-    def res(x: ast.AST, d: int) -> ast.AST:
+    parent_of = ctx.model.parent_of
+
+    def res(x: ast.AST, d: int, here: ast.AST) -> ast.AST:
         class T(ast.NodeTransformer):
             def visit_Name(self, node: ast.Name):
                 if isinstance(node.ctx, ast.Load) and node.id not in params and d > 0:
-                    r = ctx.env.reaching(f, at, node.id)
+                    r = ctx.env.reaching(f, here, node.id)
                     if r is not None and len(r[0]) == 1 and not r[1]:
                         v = r[0][0]
                         if not isinstance(v, (ast.List, ast.Dict, ast.Set)) or getattr(v, "elts", getattr(v, "keys", [1])):
-                            return res(_copy.deepcopy(v), d - 1)
+                            # names inside the value are read where the value was computed
+                            where = v
+                            while where is not None and not isinstance(where, ast.stmt):
+                                where = parent_of(where)
+                            return res(_copy.deepcopy(v), d - 1, where if where is not None else here)
                 return node
 
             def visit_Lambda(self, node):
@@ -493,7 +496,7 @@ def resolve_expr(ctx: Ctx, f: Func, at: ast.AST, e: ast.AST, depth: int = 4, kee
 
         return T().visit(x)
 
-    return res(_copy.deepcopy(e), depth)
+    return res(_copy.deepcopy(e), depth, at)
 
 
 def loop_var_iter(ctx: Ctx, f: Func, name: str) -> List[ast.AST]:
@@ -503,3 +506,25 @@ def loop_var_iter(ctx: Ctx, f: Func, name: str) -> List[ast.AST]:
         if isinstance(n, (ast.For, ast.comprehension)) and any(isinstance(x, ast.Name) and x.id == name for x in ast.walk(n.target)):
             out.append(n.iter)
     return out
+
+
+def not_after(ctx: Ctx, f: Func, a: ast.AST, b: ast.AST) -> bool:
+    """Within one round of every loop that encloses both, construct `a` is never
+    evaluated after construct `b` (statement granularity; inside one statement,
+    source order).  Use for "x happens before y whenever both happen"."""
+    cfg = ctx.cfg(f)
+    parent_of = ctx.model.parent_of
+    na, nb = cfg.stmt_node_of(a, parent_of), cfg.stmt_node_of(b, parent_of)
+    if na is None or nb is None:
+        return False
+    if na is nb:
+        return (getattr(a, "lineno", 0), getattr(a, "col_offset", 0)) <= (getattr(b, "lineno", 0), getattr(b, "col_offset", 0))
+    hdrs = []
+    p = parent_of(a)
+    while p is not None and p is not f.node:
+        if isinstance(p, (ast.For, ast.While, ast.AsyncFor)) and any(b is x for x in ast.walk(p)):
+            h = cfg.node_for(p) or cfg.node_for(getattr(p, "test", None))
+            if h is not None:
+                hdrs.append(h)
+        p = parent_of(p)
+    return cfg.find_path(nb, na, avoid=lambda n: any(n is h for h in hdrs), strict=True) is None
